@@ -47,7 +47,7 @@ def valid_traffic(rng, tg, head):
 
 
 class Stalled(BaseException):
-    pass
+    harness_abort = True
 
 
 def huge_count(rng):
@@ -199,94 +199,126 @@ def run(tier, seed):
             def on_alarm(signum, frm):
                 raise Stalled()
             old_handler = signal.signal(signal.SIGALRM, on_alarm)
-            for sess in range(nsessions):
-                atk = simnet.RawPeer(net, host='10.6.%d.%d' % (sess // 250, sess % 250 + 1)).connect(sn.node)
+            try:
+                for sess in range(nsessions):
+                    signal.setitimer(signal.ITIMER_REAL, 30.0)     # session watchdog: everything below normally takes milliseconds
+                    atk = simnet.RawPeer(net, host='10.6.%d.%d' % (sess // 250, sess % 250 + 1)).connect(sn.node)
+                    sn.node.step()
+                    sn.pump()
+                    greeted = rng.random() < 0.6
+                    streams = []
+                    if greeted:
+                        streams.append(('hello', nodeharness.frame(M.MessageHeader(0, 1, 0, 1).serialize() + sn.hello().serialize())))
+                    if not greeted and rng.random() < 0.4:
+                        # protocol order: perfectly valid objects, but sent by a peer that never greeted
+                        if rng.random() < 0.6:
+                            streams.append(('valid-block-without-greeting', nodeharness.frame(
+                                M.MessageHeader(0, 9, 0, 1).serialize() + M.DataMessage(M.DATA_BLOCK, fresh_block.block).serialize())))
+                        elif fresh_tx is not None:
+                            streams.append(('valid-tx-without-greeting', nodeharness.frame(
+                                M.MessageHeader(0, 9, 0, 1).serialize() + M.DataMessage(M.DATA_TRANSACTION, fresh_tx).serialize())))
+                    for _ in range(rng.choice([1, 1, 2, 3])):
+                        streams.append(corrupt(rng, payloads))
+                    if greeted and sess % 60 == 7:
+                        streams.append(many_addresses(rng))
+                    if greeted and sess % 20 == 3:
+                        streams.append(odd_addresses(rng))
+                    label = '+'.join(s[0].split(':')[0] for s in streams[1 if greeted else 0:])
+                    data = b''.join(s[1] for s in streams)
+                    # random chunking
+                    pos = 0
+                    rp = {'session': sess, 'greeted': greeted, 'streams': [(s[0], s[1].hex()) for s in streams]}
+                    signal.setitimer(signal.ITIMER_REAL, 4.0)      # a session normally takes milliseconds
+                    try:
+                        while pos < len(data):
+                            n = rng.choice([1, 3, 8, 50, 1024, len(data)])
+                            try:
+                                atk.send(data[pos:pos + n])
+                            except OSError:
+                                break
+                            pos += n
+                            sn.pump()
+                        sn.pump()
+                        sn.node.step()                # the managers' timer step runs between reads in the real loop
+                        sn.pump()
+                        signal.setitimer(signal.ITIMER_REAL, 30.0)
+                    except (Stalled, MemoryError) as e:
+                        signal.setitimer(signal.ITIMER_REAL, 30.0)
+                        ck.case((data,), kind='stalled')
+                        ck.violation('event-loop-stalled', 'input from one peer (%s, %d bytes) keeps the event loop busy for more than '
+                                     '4 s (%s): no other peer is served meanwhile' % (label, len(data), type(e).__name__), rp)
+                        break
+                    after = sn.observe()
+                    ck.case((data,), kind=('greeted/' if greeted else 'ungreeted/') + label.split('+')[0],
+                            sample={'greeted': greeted, 'streams': [s[0] for s in streams], 'bytes': len(data),
+                                    'attacker_dropped': not sn.connected(-1) if False else None} if len(ck.samples) < 4 else None)
+                    if sn.node.escaped:
+                        ck.violation('event-loop-exception', 'an exception escaped the per-connection event handler: %s' % sn.node.escaped[0][1], rp)
+                        break
+                    changed = [k for k in ('blocks', 'head', 'pool', 'rows', 'buffer') if base[k] != after[k]]
+                    if changed:
+                        ck.violation('malformed-input-changed-' + ','.join(changed), 'malformed input (%s) changed %s' % (label, ', '.join(changed)), rp)
+                        base = after
+                    for i in range(len(sn.peers)):
+                        if not sn.connected(i):
+                            ck.violation('bystander-dropped', 'malformed input from one peer closed another peer\'s connection', rp)
+                            break
+                    # bystander is still served
+                    if sess % 10 == 0:
+                        sn.new_messages()
+                        sn.deliver(0, M.GetPeersMessage())
+                        got = sn.new_messages()[0]
+                        if not any(k == 'PeersMessage' for k, _, _ in got):
+                            ck.violation('bystander-not-served', 'after malformed input from another peer a bystander\'s request is no longer answered', rp)
+                    atk.close()
+                    sn.pump()
+                    # frame-level comparison with the model: every complete frame of the attacker's streams
+                    if sess % 5 == 0:
+                        for fpayload in nodeharness.split_frames(data)[:3]:
+                            frame_reqs.append(('frame', [], fpayload))
+                            f = __import__('io').BytesIO(fpayload)
+                            signal.setitimer(signal.ITIMER_REAL, 4.0)
+                            try:
+                                h = M.MessageHeader.stream_deserialize(f)
+                                m = M.Message.stream_deserialize(f)
+                                frame_wants.append([1, render.r_msg_header(h), render.r_msg(m)])
+                            except Exception:
+                                frame_wants.append([0])
+                            except Stalled:
+                                frame_wants.append([0])
+                                ck.violation('event-loop-stalled', 'decoding one %d-byte frame takes more than 4 s' % len(fpayload), rp)
+                            finally:
+                                signal.setitimer(signal.ITIMER_REAL, 30.0)
+                # afterwards the node still works: a block whose header an attacker had sent with a tampered transaction list
+                # (refused) is accepted when an honest peer relays the genuine one
+                from skepticoin.datatypes import Block as _Block
+                atk = simnet.RawPeer(net, host='10.6.9.9').connect(sn.node)
                 sn.node.step()
                 sn.pump()
-                greeted = rng.random() < 0.6
-                streams = []
-                if greeted:
-                    streams.append(('hello', nodeharness.frame(M.MessageHeader(0, 1, 0, 1).serialize() + sn.hello().serialize())))
-                if not greeted and rng.random() < 0.4:
-                    # protocol order: perfectly valid objects, but sent by a peer that never greeted
-                    if rng.random() < 0.6:
-                        streams.append(('valid-block-without-greeting', nodeharness.frame(
-                            M.MessageHeader(0, 9, 0, 1).serialize() + M.DataMessage(M.DATA_BLOCK, fresh_block.block).serialize())))
-                    elif fresh_tx is not None:
-                        streams.append(('valid-tx-without-greeting', nodeharness.frame(
-                            M.MessageHeader(0, 9, 0, 1).serialize() + M.DataMessage(M.DATA_TRANSACTION, fresh_tx).serialize())))
-                for _ in range(rng.choice([1, 1, 2, 3])):
-                    streams.append(corrupt(rng, payloads))
-                if greeted and sess % 60 == 7:
-                    streams.append(many_addresses(rng))
-                if greeted and sess % 20 == 3:
-                    streams.append(odd_addresses(rng))
-                label = '+'.join(s[0].split(':')[0] for s in streams[1 if greeted else 0:])
-                data = b''.join(s[1] for s in streams)
-                # random chunking
-                pos = 0
-                rp = {'session': sess, 'greeted': greeted, 'streams': [(s[0], s[1].hex()) for s in streams]}
-                signal.setitimer(signal.ITIMER_REAL, 4.0)      # a session normally takes milliseconds
-                try:
-                    while pos < len(data):
-                        n = rng.choice([1, 3, 8, 50, 1024, len(data)])
-                        try:
-                            atk.send(data[pos:pos + n])
-                        except OSError:
-                            break
-                        pos += n
-                        sn.pump()
-                    sn.pump()
-                    sn.node.step()                # the managers' timer step runs between reads in the real loop
-                    sn.pump()
-                    signal.setitimer(signal.ITIMER_REAL, 0)
-                except (Stalled, MemoryError) as e:
-                    signal.setitimer(signal.ITIMER_REAL, 0)
-                    ck.case((data,), kind='stalled')
-                    ck.violation('event-loop-stalled', 'input from one peer (%s, %d bytes) keeps the event loop busy for more than '
-                                 '4 s (%s): no other peer is served meanwhile' % (label, len(data), type(e).__name__), rp)
-                    break
-                after = sn.observe()
-                ck.case((data,), kind=('greeted/' if greeted else 'ungreeted/') + label.split('+')[0],
-                        sample={'greeted': greeted, 'streams': [s[0] for s in streams], 'bytes': len(data),
-                                'attacker_dropped': not sn.connected(-1) if False else None} if len(ck.samples) < 4 else None)
-                if sn.node.escaped:
-                    ck.violation('event-loop-exception', 'an exception escaped the per-connection event handler: %s' % sn.node.escaped[0][1], rp)
-                    break
-                changed = [k for k in ('blocks', 'head', 'pool', 'rows', 'buffer') if base[k] != after[k]]
-                if changed:
-                    ck.violation('malformed-input-changed-' + ','.join(changed), 'malformed input (%s) changed %s' % (label, ', '.join(changed)), rp)
-                    base = after
-                for i in range(len(sn.peers)):
-                    if not sn.connected(i):
-                        ck.violation('bystander-dropped', 'malformed input from one peer closed another peer\'s connection', rp)
-                        break
-                # bystander is still served
-                if sess % 10 == 0:
-                    sn.new_messages()
-                    sn.deliver(0, M.GetPeersMessage())
-                    got = sn.new_messages()[0]
-                    if not any(k == 'PeersMessage' for k, _, _ in got):
-                        ck.violation('bystander-not-served', 'after malformed input from another peer a bystander\'s request is no longer answered', rp)
-                atk.close()
+                atk.send(nodeharness.frame(M.MessageHeader(0, 1, 0, 1).serialize() + sn.hello().serialize()))
                 sn.pump()
-                # frame-level comparison with the model: every complete frame of the attacker's streams
-                if sess % 5 == 0:
-                    for fpayload in nodeharness.split_frames(data)[:3]:
-                        frame_reqs.append(('frame', [], fpayload))
-                        f = __import__('io').BytesIO(fpayload)
-                        signal.setitimer(signal.ITIMER_REAL, 4.0)
-                        try:
-                            h = M.MessageHeader.stream_deserialize(f)
-                            m = M.Message.stream_deserialize(f)
-                            frame_wants.append([1, render.r_msg_header(h), render.r_msg(m)])
-                        except Exception:
-                            frame_wants.append([0])
-                        except Stalled:
-                            frame_wants.append([0])
-                            ck.violation('event-loop-stalled', 'decoding one %d-byte frame takes more than 4 s' % len(fpayload), rp)
-                        finally:
-                            signal.setitimer(signal.ITIMER_REAL, 0)
+                extra_tx = chaingen.coinbase(fresh_block.height, 1, keys.pks[2], b'tamper')
+                tampered = _Block(fresh_block.block.header, list(fresh_block.block.transactions) + [extra_tx])
+                net.clock.t = max(net.clock.t, fresh_block.view.time + 1)
+                atk.send(nodeharness.frame(M.MessageHeader(0, 9, 0, 1).serialize() + M.DataMessage(M.DATA_BLOCK, tampered).serialize()))
+                sn.pump()
+                mid_state = sn.observe()
+                if fresh_block.id in mid_state['blocks']:
+                    ck.violation('malformed-input-changed-blocks', 'a block with a genuine header and a tampered transaction list '
+                                 'entered the chain state', {'final': 'tampered'})
+                elif all(sn.connected(i) for i in range(len(sn.peers))):
+                    sn.deliver(0, M.DataMessage(M.DATA_BLOCK, fresh_block.block))
+                    fin_state = sn.observe()
+                    ck.case(('genuine-after-tampered',), kind='genuine-block-after-tampered-copy')
+                    if fresh_block.id not in fin_state['blocks']:
+                        ck.violation('genuine-block-refused-after-tampered-copy', 'after an attacker sent a block\'s genuine header with '
+                                     'a tampered transaction list (refused), the genuine block relayed by an honest peer is not accepted',
+                                     {'final': 'genuine'})
+            except Stalled:
+                ck.violation('event-loop-stalled', 'after input from one peer the node stops making progress (a later step of the '
+                             'event loop blocks for more than 30 s): no peer is served any more', {'session': sess})
+            finally:
+                signal.setitimer(signal.ITIMER_REAL, 0)
             signal.signal(signal.SIGALRM, old_handler)
     if r.ok and frame_reqs:
         outs = model.run_batch(frame_reqs)
